@@ -38,6 +38,35 @@ REL = 1e-9      # 'equal up to rounding' for re-gauged inputs: |d repr| <= REL *
 SEEN = {}
 TIMES = {}
 SLOW = []
+WATCHDOG = [4.0]
+
+
+class Watchdog:
+    """safety net only: the generators choose configurations that finish in well under a second; a call that
+    nevertheless runs away is interrupted and treated like a call that raised (no judgement on its inputs)"""
+
+    def __init__(self, seconds):
+        self.seconds = seconds
+
+    def _handler(self, signum, frame):
+        raise TimeoutError("watchdog")
+
+    def __enter__(self):
+        import signal
+        try:
+            self.old = signal.signal(signal.SIGALRM, self._handler)
+            signal.setitimer(signal.ITIMER_REAL, self.seconds)
+            self.armed = True
+        except ValueError:      # not in the main thread
+            self.armed = False
+        return self
+
+    def __exit__(self, *a):
+        import signal
+        if self.armed:
+            signal.setitimer(signal.ITIMER_REAL, 0)
+            signal.signal(signal.SIGALRM, self.old)
+        return False
 
 
 # ------------------------------------------------------------------------------------ snapshots
@@ -560,6 +589,14 @@ def chain_ops(env):
                 step = 0.01
                 dt = step
                 kw["guess_dt"] = dt / 2
+        if method in REGAUGE_EVOLVE:
+            # the regularised mean-field equations are stiff for rank-deficient states (density operators built
+            # from pure states, over-complete bonds): loose integrator tolerances, mild regularisation, short step
+            kw.update(reg_epsilon=1e-4, ivp_rtol=1e-3, ivp_atol=1e-5)
+            if not (method == "tdvp_mu_cmf" and kw.get("ivp_solver") == "krylov" and not imag):
+                step = float(rng.choice([0.02, 0.05]))
+                dt = -1j * step if imag else step
+                kw["guess_dt"] = dt / 2
         # the caller's own writes (configuration) happen before the snapshot
         S.evolve_config = EvolveConfig(getattr(EvolveMethod, method), **kw)
         mode = int(rng.integers(0, 3))
@@ -636,7 +673,8 @@ def run_chain_call(run, env, thunk):
     before = {k: Snap(v) for k, v in env.objs.items()}
     tc = time.time()
     try:
-        result = call()
+        with Watchdog(WATCHDOG[0]):
+            result = call()
         exc = None
     except Exception as e:
         exc = e
